@@ -252,9 +252,16 @@ func GenMulti(c *Chooser, o GenOpts) *MultiWorld {
 		callee := root + "/.github/workflows/reuse-gen.yml"
 		disk.Put(callee, []byte(genIfaceWorkflow(c)))
 		ncallers := 1 + c.Int("world.ncallers", 2)
+		badSpec := c.Weighted("world.badspec", 1, 3)
 		for i := 0; i < ncallers; i++ {
 			p := fmt.Sprintf("%s/.github/workflows/call-gen%d.yml", root, i)
-			disk.Put(p, []byte(genIfaceCaller(c, i)))
+			src := genIfaceCaller(c, i)
+			if badSpec {
+				// the same invalid local call (a local path with a ref) in every caller: the rule
+				// remembers it in the project's cache of reusable workflows from each file's goroutine
+				src += fmt.Sprintf("  pinned%d:\n    uses: ./.github/workflows/reuse-gen.yml@main\n", i)
+			}
+			disk.Put(p, []byte(src))
 			all = append(all, p)
 			mw.Groups[p] = []string{"generated-interface-caller"}
 		}
